@@ -144,6 +144,10 @@ func buildFlavour(fl string) (string, error) {
 	}
 	args := []string{"build", "-modfile=" + mf, "-overlay=" + ov}
 	args = append(args, def.build...)
+	if os.Getenv("VERIF_COVER") != "" && fl == "plain" {
+		// reach measurement (selftest/coverage.sh): statement coverage of the library under the monitors
+		args = append(args, "-cover", "-coverpkg=github.com/cloudwego/gopkg/...,verifharness/cmd/vh")
+	}
 	args = append(args, "-o", out, "./cmd/vh")
 	cmd := exec.Command(def.goBin, args...)
 	cmd.Dir = harnessDir()
@@ -653,6 +657,9 @@ func runWorker(r *workerRun, prop, tier string, seed int64, workdir string, time
 		"-shard", fmt.Sprint(r.shard), "-nshards", fmt.Sprint(r.job.Shards), "-workdir", workdir}
 	cmd := exec.Command(r.bin, args...)
 	cmd.Env = append(os.Environ(), "GOTRACEBACK=all")
+	if cd := os.Getenv("VERIF_COVER"); cd != "" && fl == "plain" {
+		cmd.Env = append(cmd.Env, "GOCOVERDIR="+cd)
+	}
 	def := flavours[fl]
 	isRace := false
 	for _, a := range def.build {
